@@ -482,6 +482,22 @@ inline void Exec(const Plan & plan, RunResult & res)
          if (in.totalRead == before) {if (++idle > rsched.size()+3) break;} else idle = 0;
       }
       MGFreeMessageGateway(gw);
+      // Direct parser pass.  The C gateway parses out of a body buffer of twice the declared size, so a parser over-read of a few bytes stays inside the
+      // gateway's own allocation; the property speaks of "the supplied buffer", so every well-framed body of the hostile stream is also handed to
+      // MMUnflattenMessage() in an exactly-sized heap block (ASan red zone right behind it).
+      {
+         const std::string & hs = hostile.stream; uint32_t o = 0;
+         for (int n=0; (n<64)&&(o+8 <= hs.size()); n++)
+         {
+            uint32_t bl; memcpy(&bl, hs.data()+o, 4); if ((bl == 0)||((uint64_t) o+8+bl > hs.size())) break;
+            uint8_t * exactBuf = new uint8_t[bl]; memcpy(exactBuf, hs.data()+o+8, bl);
+            MMessage * mm = MMAllocMessage(0);
+            const c_status_t pr = MMUnflattenMessage(mm, exactBuf, bl); th.u((uint64_t) pr); st.inc("mini_direct_parses");
+            if (pr == CB_NO_ERROR) {const uint32 fs = MMGetFlattenedSize(mm); std::string b(fs ? fs : 1, '\0'); MMFlattenMessage(mm, &b[0]); th.u(fs); st.inc("mini_direct_parse_ok");}
+            MMFreeMessage(mm); delete [] exactBuf;
+            o += 8+bl;
+         }
+      }
    }
    else
    {
